@@ -25,8 +25,13 @@ ENVQ = CORE + 'Environment'
 
 
 def run(cx: Cx):
-    # ------------------------------------------------------------ has_component (instance and class level)
-    for q, field in ((CORE + 'Agent.has_component', 'components'),):
+    check_has_all(cx, CORE + 'Agent.has_component', 'components')
+    _rest(cx)
+
+
+def check_has_all(cx: Cx, q: str, field: str):
+    """has_component(*types) / has_class_component(*types): True exactly when every listed type is a key of the store."""
+    for q, field in ((q, field),):
         fn = cx.fn(q)
         comps = Attr(Sym(fn.params[0]), field)
         va = Sym('*' + fn.vararg) if fn.vararg else None
@@ -39,8 +44,19 @@ def run(cx: Cx):
             iters = [e for e in p.events if e.kind == 'iter']
             loops = [e for e in p.events if e.kind == 'loop']
             if isinstance(v, App) and v.fn == 'all':
-                seen.add('all')
-                continue
+                # all(<type> in <store> for <type> in <template>)
+                g = v.args[0] if v.args else None
+                d = getattr(g, 'detail', None)
+                from sa.terms import BoolT
+                okall = isinstance(g, Fresh) and d is not None and len(d.gens) == 1 and strip_versions(d.gens[0][1]) == va and \
+                    not d.gens[0][2] and isinstance(d.elt, BoolT) and d.elt.f == AIn(d.gens[0][0], comps)
+                if okall:
+                    seen.add('all')
+                    continue
+                ok = False
+                cx.violation('R-GUARD', fn.qualname, 'all-of-semantics', f"{fn.name} returns {v!r} over {getattr(d, 'elt', None)!r}: it must be "
+                             f"true exactly when every listed type is a key of the store", where=cx.where(fn, p.last.line))
+                break
             if not loops or strip_versions(loops[0].data.get('iter')) != va:
                 ok = False
                 cx.violation('R-GUARD', fn.qualname, 'tests-every-listed-type', f"{fn.name} does not iterate its template {va!r}", where=cx.where(fn))
@@ -74,6 +90,9 @@ def run(cx: Cx):
         elif ok:
             cx.inconclusive('R-GUARD', fn.name, f"branches found {sorted(seen)}", where=cx.where(fn), function=fn.qualname)
 
+
+
+def _rest(cx: Cx):
     # ------------------------------------------------------------ get_agents
     ga = cx.fn(ENVQ + '.get_agents')
     self_s = Sym(ga.params[0])
@@ -237,3 +256,6 @@ def run(cx: Cx):
         if good_all and nret:
             cx.ok('R-FWD', f"{name}: candidates = get_agents(*args, tag=tag); drawn with Model.random; environment untouched", where=cx.where(fn),
                   function=fn.qualname)
+    from .common import check_presence_not_truthiness
+    check_presence_not_truthiness(cx, [CORE + 'Agent.has_component', ENVQ + '.get_agents', ENVQ + '.get_random_agent', ENVQ + '.shuffle'])
+
